@@ -24,11 +24,12 @@ def verify(wt: str, pid: str) -> dict:
     env = f"PYTHONPATH={wt}/src"
     demo = f"demo_{pid}.py"
     rc1, out1 = sh(f"{env} /venv/bin/python {demo}", cwd=wt, timeout=900)
-    sh("git stash -q -- src", cwd=wt)
+    # (not `git stash`: the stash stack is shared by all worktrees of /repo, so concurrent users race)
+    sh("git diff -- src > .seedtest.patch && git apply -R .seedtest.patch", cwd=wt)
     try:
         rc0, out0 = sh(f"{env} /venv/bin/python {demo}", cwd=wt, timeout=900)
     finally:
-        sh("git stash pop -q", cwd=wt)
+        sh("git apply .seedtest.patch && rm -f .seedtest.patch", cwd=wt)
     return {"demo_with_change_rc": rc1, "demo_without_change_rc": rc0, "with_tail": out1[-400:], "without_tail": out0[-300:]}
 
 
